@@ -5,16 +5,25 @@ from vlib.tables import run_extractor
 
 MANIFEST = {
     "text": "Lean theorems about M, a transcription of libcoap's global lock (coap_lock_lock_func / coap_lock_unlock_func in both variants, "
-            "the four callback macros): for any number of threads running any well-nested programs under any interleaving — "
+            "the four callback macros, the release window coap_lock_unlock; blocking wait; coap_lock_lock inside library code): "
+            "for any number of threads running any well-nested programs under any interleaving — "
             "mutual_exclusion / critical_sections_exclusive (library code and lock-keeping callbacks of different threads never overlap; "
             "re-entry only by the holder from inside a callback), balanced (a returned top-level API call leaves the mutex free, "
             "in_callback = lock_count = 0), reentrancy_ok / no_self_deadlock (a callback may call the API), no_deadlock / progress / "
             "not_blocked_once_others_return, no_assert_fails. T1 facts regenerated from the tree on every run and proved by decide: "
             "advertised_implies_compiled (config probes of the CMake build and of the emulated autotools configuration), "
             "api_sites_bracketed (all 71 COAP_API wrappers lock / call the worker / unlock on every path), callback_sites_wrapped_partial "
-            "(request, response, NACK, event, ping, pong handlers are invoked through the macros). M is tied to the compiled code by "
+            "(request, response, NACK, event, ping, pong handlers are invoked through the macros), internal_windows_balanced (a "
+            "path-sensitive lock-depth analysis of every function definition of the compiled sources: each function that releases or "
+            "takes the lock itself — the window around epoll_wait in coap_io_process_with_fds_lkd, the callback-release sites, "
+            "coap_new_context, the wrappers — reaches every return / loop back-edge at its entry depth, every re-lock failure action "
+            "leaves the function, nothing inside a release window touches the context); window_mutex_free / "
+            "api_call_enters_during_window (a thread waiting inside coap_io_process does not hold the mutex; another thread's API "
+            "call gets in). M is tied to the compiled code by "
             "differential runs of the real macros and lock functions: single-thread token sequences and 2..8 real threads under "
-            "turn-based schedules, both lock variants. partial: race freedom of the compiled C outside the lock protocol is only observed "
+            "turn-based schedules, both lock variants; the real coap_io_process() is interrupted by a signal while another thread "
+            "holds the lock in an event callback (must re-lock before returning); a failing coap_new_context() must leave the lock "
+            "free. partial: race freedom of the compiled C outside the lock protocol is only observed "
             "by a ThreadSanitizer smoke run (support, not proof); two open findings (auxiliary callbacks invoked without the macro; "
             "unsynchronised pre-check read of global_lock) are reported as KNOWN-FINDING.",
     "note": "Trusted: Lean kernel (+ propext, Classical.choice, Quot.sound), pthread mutex semantics, the T1 probe and static scan "
@@ -27,20 +36,27 @@ MANIFEST = {
 LEAN_MODULES = ["CoapVerif.Props.C13"]
 NAMESPACE = "Coap.C13"
 REQUIRED_THEOREMS = ["advertised_implies_compiled", "advertised_implies_compiled_all", "api_sites_bracketed",
-                     "callback_sites_wrapped_partial", "mutual_exclusion", "critical_sections_exclusive", "balanced",
+                     "callback_sites_wrapped_partial", "internal_windows_balanced", "internal_windows_seen",
+                     "window_mutex_free", "api_call_enters_during_window", "mutual_exclusion", "critical_sections_exclusive", "balanced",
                      "balanced_quiescent", "reentrancy_ok", "no_self_deadlock", "no_deadlock",
                      "not_blocked_once_others_return", "progress", "no_assert_fails", "reentry_only_by_owner_in_callback"]
 RULE = ("(1) the build-configuration probes of the tree (CMake default; autotools defaults emulated with its AC_DEFINE values), "
-        "(2) one line per COAP_API wrapper and per application-callback invocation site found by the static scan, "
-        "(3) random well-nested token sequences (API entry/exit, the four callback macros, nesting depth up to 40) run on one "
+        "(2) one line per COAP_API wrapper, per application-callback invocation site and per function that releases / takes the "
+        "lock itself (lock balance along every path of its statement tree) found by the static scan, "
+        "(3) random well-nested token sequences (API entry/exit, the four callback macros, release windows, nesting depth up to 40) run on one "
         "thread through the real macros and lock functions of both variants, (4) 2..8 real threads with well-nested programs "
-        "run under random turn-based schedules and then to completion, (5) TSan smoke runs (support only); "
+        "run under random turn-based schedules and then to completion, (5) TSan smoke runs (support only), "
+        "(6) the real I/O loop interrupted by a signal (EINTR from epoll_wait) while another thread holds the lock; a failing "
+        "coap_new_context(); "
         "non-trivial = a sequence/schedule in which the mutex is taken at least once and a callback macro is executed, or a "
         "site / configuration line")
 TRUSTED_BASE = ["Lean 4.33 kernel; axioms allowed: propext, Classical.choice, Quot.sound (audited per theorem each run)",
                 "pthread mutex semantics (a mutex is held by at most one thread; lock blocks while it is held)",
                 "T1: extract/threadcfg.c (config probe), extract/apiscan.py (static scan: a heuristic C statement parser over "
-                "`gcc -E -fdirectives-only` output; it can miss an unusual control-flow shape, it cannot make a theorem check)",
+                "`gcc -E -fdirectives-only` output; it can miss an unusual control-flow shape, it cannot make a theorem check), "
+                "extract/lockbal.py (statement-tree parser + abstract interpretation of the lock depth relative to the function entry "
+                "over sets of (depth, branch facts); self-tested on 17 synthetic functions before every scan; calls are transparent, "
+                "so a function that hands the lock over to its caller would be reported, not followed)",
                 "harness/lockseq.c, harness/thrsmoke.c, generators, string comparison",
                 "M (CoapVerif/Model/Lock.lean) is a hand transcription of coap_threadsafe.c and of the macros of "
                 "coap_threadsafe_internal.h; checked against the compiled code on the sequences and schedules run"]
@@ -49,7 +65,8 @@ ASSUMPTIONS = ["A1 one call of coap_lock_lock_func / coap_lock_unlock_func / one
                "callback nesting depth < 2^32 - 1 (in_callback and lock_count are uint32_t)",
                "every thread runs a well-nested program: application code only calls COAP_API functions, library code only "
                "invokes application code through the four callback macros — established for the tree by the static scan (T1), "
-               "for the 71 wrappers and the listed callback types",
+               "for the 71 wrappers and the listed callback types; library code gives the lock up only in balanced release windows "
+               "(T1 internal_windows_balanced, for the configuration compiled here: epoll; the select() variant of the I/O loop is not scanned)",
                "data-race freedom of the compiled C outside the lock protocol (e.g. the unsynchronised read of "
                "global_lock.in_callback/pid at the top of coap_lock_lock_func) is TSan-observed only",
                "compiled Lean definitions agree with the kernel's reading of them"]
@@ -58,6 +75,9 @@ SPEC_DECISIONS = ["D13 whether the mutex is actually released during a *_release
                   "'API use on the same context': its *_lkd worker may run unlocked",
                   "D15 the callback types that must be wrapped are those the property enumerates (request, response, NACK, event, ping, pong); "
                   "unwrapped auxiliary callbacks are reported as an open finding, not silently accepted",
+                  "D17 inside the release window around the blocking wait the read of ctx->epfd (written only by coap_new_context before the "
+                  "context is visible and by coap_free_context) is not an access to shared library state; the failure action of a re-lock "
+                  "(dead code under A2) only has to leave the function: return, goto, assert(0) or abort()",
                   "D16 the logging sink (coap_log_handler_t) and the PRNG replacement (coap_rand_func_t) are not application callbacks in the property's sense"]
 RUN_KW = {"timeout": 900}
 
